@@ -114,6 +114,8 @@ def select(harnesses, prop, tier, only=None):
             continue
         if tier == "quick" and h["tier"] != "quick":
             continue
+        if tier == "thorough" and h["tier"] not in ("quick", "thorough"):
+            continue
         if h["tier"] == "off":
             continue
         if prop == "all" or prop in h["props"]:
